@@ -692,7 +692,7 @@ func c12JudgeTamperedRange(t *rapid.T, sq *vk.Square, rg c12Range, r *GetRangeRe
 func TestVerifC12_Range(t *testing.T) {
 	defer vk.Flush()
 	ctx := context.Background()
-	sizes := []int{1, 2, 2, 4, 4, 4, 8, 8, 16}
+	sizes := []int{2, 2, 4, 4, 4, 8, 8, 16}
 	if vk.Thorough() {
 		sizes = append(sizes, 16, 32)
 	}
@@ -866,12 +866,7 @@ func TestVerifC12_RangeRefusals(t *testing.T) {
 // ---- native fuzz target (thorough tier): JSON decoder feeding GetRangeResult.Verify ----
 
 func FuzzVerifC12_RangeResultJSON(f *testing.F) {
-	runs := []vk.Run{
-		{NS: libshare.TxNamespace, Start: 0, Len: 2},
-		{NS: vk.BlobNS(0), Start: 2, Len: 7, Pad: 1},
-		{NS: vk.BlobNS(2), Start: 9, Len: 5},
-	}
-	sq := vk.BuildSquare(4, 2, runs, 12)
+	sq := c12FixedSquare()
 	m := c12Module(map[uint64]*vk.Square{3: sq})
 	root := sq.Roots.Hash()
 	for _, rg := range [][2]int{{2, 9}, {3, 4}, {9, 14}, {4, 8}, {0, 2}} {
